@@ -20,7 +20,7 @@ from . import env
 
 EVID = Path(os.environ.get("VERIF_EVIDENCE_DIR") or (env.VERIF / "evidence"))
 REPLAY = EVID / "replay"
-MAX_CONFIRM_PER_KEY = 2
+MAX_CONFIRM_PER_KEY = 4
 MAX_CONFIRM_TOTAL = 30
 
 
@@ -69,6 +69,12 @@ def emit(lines, *a):
 
 
 def main(argv=None):
+    # whatever ends up in a witness (file names that are not UTF-8 ...), the report itself stays printable
+    for stream in (sys.stdout, sys.stderr):
+        try:
+            stream.reconfigure(errors="backslashreplace")
+        except Exception:  # noqa
+            pass
     ap = argparse.ArgumentParser()
     ap.add_argument("prop")
     ap.add_argument("--tier", default=os.environ.get("VERIF_TIER", "quick"), choices=["quick", "thorough"])
@@ -214,6 +220,8 @@ def explore(mod, prop, tier, seed, jobs, workdir, lines, t0):
             # budget exhausted: do not silently drop
             confirmed[key].append(vs[0])
 
+    # observed but never reproduced (order- or timing-dependent?): neither a violation nor "held"
+    not_reproduced = [k for k in by_key if not confirmed[k] and (prop, k) not in known]
     new_keys = [k for k in confirmed if confirmed[k] and (prop, k) not in known]
     known_seen = [k for k in confirmed if confirmed[k] and (prop, k) in known]
 
@@ -227,6 +235,9 @@ def explore(mod, prop, tier, seed, jobs, workdir, lines, t0):
     min_nt = getattr(mod, "MIN_NONTRIVIAL", {"quick": 2, "thorough": 2})[tier]
     if n_distinct < min_nt:
         inconclusive.append(f"only {n_distinct} distinct non-trivial cases (< {min_nt})")
+    for k in not_reproduced:
+        inconclusive.append(f"violation {k!r} observed {len(by_key[k])} time(s) but not reproduced in a fresh process: "
+                            f"{str(by_key[k][0].get('what'))[:300]}")
     if hasattr(mod, "inconclusive_reasons"):
         inconclusive.extend(mod.inconclusive_reasons(dict(counters), dict(finish), dict(feats), tier) or [])
 
